@@ -128,6 +128,10 @@ func newEventFromUntrustedJSONV3(eventJSON []byte, roomVersion IRoomVersion) (PD
 		}
 	}
 
+	if err = res.populateEventID(roomVersion); err != nil {
+		return nil, err
+	}
+
 	err = CheckFields(res)
 
 	return res, err
@@ -149,6 +153,9 @@ func newEventFromTrustedJSONV3(eventJSON []byte, redacted bool, roomVersion IRoo
 	res.roomVersion = roomVersion.Version()
 	res.redacted = redacted
 	res.eventJSON = eventJSON
+	if err := res.populateEventID(roomVersion); err != nil {
+		return nil, err
+	}
 	return &res, nil
 }
 
